@@ -1,0 +1,64 @@
+//go:build verif
+
+package reorgdetector
+
+import (
+	"context"
+	"sort"
+
+	"github.com/ethereum/go-ethereum/common"
+)
+
+// Hooks of the C06 verification harness (/verif/harness/c06). Thin wrappers only; nothing here changes behaviour.
+
+// VerifTick runs exactly what one firing of the ticker in Start runs.
+func (rd *ReorgDetector) VerifTick(ctx context.Context) error {
+	return rd.detectReorgInTrackedList(ctx)
+}
+
+// VerifTracked returns the in-memory tracked headers of a subscriber in ascending block order
+// (ok = false: the subscriber has no entry in the trackedBlocks map).
+func (rd *ReorgDetector) VerifTracked(id string) (nums []uint64, hashes []common.Hash, ok bool) {
+	rd.trackedBlocksLock.RLock()
+	hdrs, ok := rd.trackedBlocks[id]
+	rd.trackedBlocksLock.RUnlock()
+	if !ok {
+		return nil, nil, false
+	}
+	for _, h := range hdrs.getSorted() {
+		nums = append(nums, h.Num)
+		hashes = append(hashes, h.Hash)
+	}
+	return nums, hashes, true
+}
+
+// VerifTrackedRows returns the rows of table tracked_block of a subscriber in rowid (= insertion) order.
+func (rd *ReorgDetector) VerifTrackedRows(id string) (nums []uint64, hashes []common.Hash, err error) {
+	rows, err := rd.db.Query("SELECT num, hash FROM tracked_block WHERE subscriber_id = $1 ORDER BY rowid;", id)
+	if err != nil {
+		return nil, nil, err
+	}
+	defer rows.Close()
+	for rows.Next() {
+		var (
+			n uint64
+			h string
+		)
+		if err := rows.Scan(&n, &h); err != nil {
+			return nil, nil, err
+		}
+		nums = append(nums, n)
+		hashes = append(hashes, common.HexToHash(h))
+	}
+	return nums, hashes, rows.Err()
+}
+
+// VerifSubscriberIDs returns the subscription ids in ascending order.
+func (rd *ReorgDetector) VerifSubscriberIDs() []string {
+	ids := rd.getSubscriberIDs()
+	sort.Strings(ids)
+	return ids
+}
+
+// VerifClose closes the detector's SQLite handle (simulated stop of the node).
+func (rd *ReorgDetector) VerifClose() error { return rd.db.Close() }
